@@ -94,7 +94,7 @@ def _frozen_source(f):
 
 
 def is_sym(x):
-    return isinstance(x, (SInt, SBool, SSeq))
+    return isinstance(x, (SInt, SBool, SSeq, core.SReal))
 
 
 _LIST_ITER = type(iter([]))
@@ -110,8 +110,10 @@ def has_sym(x, depth=3):
             return has_sym(red[1][0], depth)
         except Exception:
             return False
-    if isinstance(x, (SymDict, SymSet)):
-        return True
+    if isinstance(x, SymDict):
+        return x.has_sym_keys() or (depth > 0 and any(has_sym(v, depth - 1) for v in x.values()))
+    if isinstance(x, SymSet):
+        return any(sym_key(k) for k in x)
     if depth and isinstance(x, (list, tuple)):
         return any(has_sym(y, depth - 1) for y in x)
     if depth and type(x) is dict:
@@ -363,8 +365,12 @@ def p_int(I, x=0, *a, **kw):
 
 
 def p_float(I, x=0.0):
-    if is_sym(x):
-        raise Unsupported("float() of symbolic value")
+    if isinstance(x, SSeq):
+        return fmt.seq_to_float(x)
+    if isinstance(x, core.SReal):
+        return x
+    if isinstance(x, (SInt, SBool)):
+        return core.SReal(z3.ToReal(zi(x)))
     return float(x)
 
 
@@ -748,6 +754,11 @@ class Interp:
             return self.dict_native(recv, f.__name__, args, kwargs, f)
         if getattr(f, "__name__", "") in ("__setattr__", "__delattr__", "__getattribute__", "__init__", "__new__", "__init_subclass__", "__eq__", "__ne__", "__repr__") \
                 and not isinstance(recv, (str, bytes, bytearray, dict, set, frozenset)) and recv is not None:
+            return self.call_native(f, args, kwargs)
+        import io as _io
+
+        if isinstance(recv, _io.IOBase) and all(isinstance(a, (int, SInt, SBool)) or not is_sym(a) for a in args):
+            # C-level file objects take ints through __index__ (which forks the value)
             return self.call_native(f, args, kwargs)
         if recv is None or isinstance(recv, types.ModuleType):
             nm = getattr(f, "__name__", "")
@@ -1673,8 +1684,14 @@ class Interp:
             val = self.eval(v.value, env)
             spec = self.eval(v.format_spec, env) if v.format_spec else ""
             if is_sym(val):
-                if v.conversion == ord("r") or spec:
-                    raise Unsupported("f-string conversion/spec on symbolic value")
+                if v.conversion == ord("r") and not spec:
+                    # repr() of a symbolic value only occurs in diagnostics (exception
+                    # messages, log lines): rendered as a placeholder, noted in the run
+                    ctx().note("repr() of a symbolic value rendered as a placeholder in an f-string")
+                    parts.append("<symbolic>")
+                    continue
+                if spec:
+                    raise Unsupported("f-string format spec on symbolic value")
                 parts.append(fmt.to_str(val))
                 symbolic = True
                 continue
